@@ -133,3 +133,165 @@ Proof.
   - exact H.
   - exact H.
 Qed.
+
+Lemma event_register_ok : forall s j, InvW s -> 0 <= j < 16 -> ev_reg s j = false ->
+  okr (StepW s) (fst (event_register s j)).
+Proof.
+  intros s j I J RF. pose proof (iw_ev _ I) as [V1 V2 V3 V4 V5 V6 V7].
+  destruct (ev_s2_ok s I) as [I2 F2].
+  assert (CN : 0 <= ev_count s) by (rewrite V4; apply cntf_nonneg).
+  destruct (Z.eq_dec (ev_count s) 0) as [C0|CN0].
+  - assert (R16 : rw_reg s 16 = false).
+    { destruct (rw_reg s 16) eqn:Q; [|reflexivity]. destruct (proj1 V5 eq_refl). lia. }
+    assert (AR : active_ref s = 0).
+    { destruct (fv_ref _ _ (iw_fd _ I)) as [Q|Q]; [assumption|]. destruct (proj1 V6 Q). lia. }
+    destruct (use_raw s) eqn:U.
+    + rewrite (evreg_raw s j C0 U).
+      apply (ev_kick_raw_ok s (ev_s2 s) j I J RF C0 I2 F2); try reflexivity; try assumption.
+      unfold ev_s2. sp. lia.
+    + destruct (is_epoll s) eqn:E.
+      * destruct (event_rx_on_ok 0 (ev_s2 s) I2 E AR) as [SF H].
+        destruct (event_rx_on (ev_s2 s)) as [[s3|s3] b] eqn:RX; cbn [fst snd] in *; subst b.
+        -- destruct H as (A & B & C & D & E1 & E2 & E3 & E4 & E5 & E6 & E7).
+           change (use_raw (ev_s2 s)) with (use_raw s) in E5. rewrite U in E5.
+           rewrite (evreg_epoll s j s3 C0 U E RX E5). cbn [fst okr]. unfold ev_setreg.
+           apply (ev_setreg_ok s s3 j I J RF A); try assumption.
+           ++ eapply Fr_trans; eassumption.
+           ++ rewrite E7. change (rw_reg (ev_s2 s) 16) with (rw_reg s 16). rewrite R16, E5.
+              split; [discriminate|intros [Q _]; discriminate].
+           ++ rewrite C, E5, E3. unfold ev_s2. sp. split; [intros _; split; [reflexivity|lia]|reflexivity].
+           ++ unfold is_epoll in *. rewrite E6. change (method (ev_s2 s)) with (method s). rewrite E. discriminate.
+        -- rewrite (evreg_epoll_halt s j s3 false C0 U E RX). exact H.
+      * rewrite (evreg_poll s j C0 U E).
+        set (s1 := set_ev (ev_s2 s) (ev_count (ev_s2 s)) (ev_reg (ev_s2 s)) true).
+        assert (I1 : InvE 0 s1).
+        { apply (InvE_fdcs 0 0 (ev_s2 s) s1); try reflexivity; [constructor; reflexivity| |assumption].
+          apply (AcctD_change 0 0 (ev_s2 s)); try reflexivity. apply (ie_acct _ _ I2). }
+        apply (ev_kick_raw_ok s s1 j I J RF C0 I1); try reflexivity; try assumption.
+        -- eapply Fr_trans; [exact F2|]. apply Fr_fields; reflexivity.
+        -- subst s1. unfold ev_s2. sp. lia.
+  - rewrite (evreg_notfirst s j CN0). cbn [fst okr]. unfold ev_setreg.
+    apply (ev_setreg_ok s (ev_s2 s) j I J RF I2 F2); try reflexivity.
+    + change (rw_reg (ev_s2 s) 16) with (rw_reg s 16). change (use_raw (ev_s2 s)) with (use_raw s).
+      change (ev_count (ev_s2 s)) with (ev_count s + 1). rewrite V5. intuition lia.
+    + change (active_ref (ev_s2 s)) with (active_ref s). change (use_raw (ev_s2 s)) with (use_raw s).
+      change (ev_count (ev_s2 s)) with (ev_count s + 1). rewrite V6. intuition lia.
+    + exact V7.
+Qed.
+
+(* ---------- iv_event_unregister ---------- *)
+Definition ev_u2 (s : core) (j : Z) : core :=
+  let s1 := set_evlists s (remove_z j (ev_pending s)) (remove_z j (ev_batch s)) in
+  set_ev s1 (ev_count s1 - 1) (upd (ev_reg s1) j false) (use_raw s1).
+
+Lemma event_unregister_unfold : forall s j,
+  event_unregister s j =
+  let s2 := ev_u2 s j in
+  bind (if ev_count s2 =? 0 then (if use_raw s2 then raw_unregister s2 KICK_RAW else event_rx_off s2) else R s2)
+       (fun s => R (set_numobjs s (numobjs s - 1))).
+Proof. reflexivity. Qed.
+
+Lemma ev_unreg_fin : forall s0 sX j, InvW s0 -> 0 <= j < 16 -> ev_reg s0 j = true ->
+  InvE 1 sX -> Fr s0 sX -> ev_pending sX = remove_z j (ev_pending s0) -> ev_batch sX = remove_z j (ev_batch s0) ->
+  ev_reg sX = upd (ev_reg s0) j false -> ev_count sX = ev_count s0 - 1 -> method sX = method s0 ->
+  (rw_reg sX 16 = true <-> (use_raw sX = true /\ 1 <= ev_count sX)) ->
+  (active_ref sX = 1 <-> (use_raw sX = false /\ 1 <= ev_count sX)) ->
+  (is_epoll sX = false -> active_ref sX = 0) ->
+  StepW s0 (set_numobjs sX (numobjs sX - 1)).
+Proof.
+  intros s0 sX j I J RT IX FX EP EB ER EC EM KK KR KP.
+  set (sF := set_numobjs sX (numobjs sX - 1)).
+  pose proof (iw_ev _ I) as [V1 V2 V3 V4 V5 V6 V7].
+  split.
+  - apply InvE_InvW.
+    + apply (InvE_fdcs 1 0 sX sF); try reflexivity; [constructor; reflexivity| |assumption].
+      apply (AcctD_change 1 0 sX); try reflexivity; [apply (ie_acct _ _ IX)|]. subst sF. sp. lia.
+    + constructor; subst sF; sp; rewrite ?EP, ?EB, ?ER; try assumption.
+      * intros x. unfold upd. destruct (Z.eqb_spec x j) as [->|N]; [discriminate|apply V1].
+      * intros x Hx. rewrite <- remz_app in Hx. apply In_remz in Hx. destruct Hx as [Hx N].
+        rewrite upd_other by assumption. apply V2. assumption.
+      * rewrite <- remz_app. apply NoDup_remz. assumption.
+      * rewrite EC, V4. pose proof (cnt_upd_false (ev_reg s0) j RT J). lia.
+  - eapply Fr_trans; [exact FX|]. apply Fr_fields; reflexivity.
+Qed.
+
+Lemma ev_u2_ok : forall s j, InvW s -> InvE 1 (ev_u2 s j) /\ Fr s (ev_u2 s j).
+Proof.
+  intros s j I. split.
+  - apply (InvE_fdcs 0 1 s (ev_u2 s j)); try reflexivity; [constructor; reflexivity| |apply InvW_InvE; assumption].
+    apply (AcctD_change 0 1 s); try reflexivity; [apply Acct_AcctD; apply (iw_acct _ I)|]. unfold ev_u2. sp. lia.
+  - constructor; try reflexivity.
+    + unfold ev_u2. sp. lia.
+    + unfold ev_u2. sp. apply remz_length.
+    + unfold ev_u2. sp. lia.
+    + rewrite (tmeasure_same s); [lia|reflexivity..].
+    + tauto.
+    + left. reflexivity.
+Qed.
+
+Lemma event_unregister_ok : forall s j, InvW s -> 0 <= j < 16 -> ev_reg s j = true ->
+  okr (StepW s) (event_unregister s j).
+Proof.
+  intros s j I J RT. rewrite event_unregister_unfold. cbv zeta.
+  pose proof (iw_ev _ I) as [V1 V2 V3 V4 V5 V6 V7].
+  destruct (ev_u2_ok s j I) as [I2 F2].
+  assert (CP : 1 <= ev_count s) by (rewrite V4; apply (cntf_pos _ _ j); [apply In_zseq'; lia|assumption]).
+  assert (C2 : ev_count (ev_u2 s j) = ev_count s - 1) by reflexivity.
+  assert (U2 : use_raw (ev_u2 s j) = use_raw s) by reflexivity.
+  rewrite C2, U2.
+  destruct (Z.eqb_spec (ev_count s - 1) 0) as [C1|CN].
+  - destruct (use_raw s) eqn:U.
+    + assert (R16 : rw_reg s 16 = true) by (apply V5; split; [reflexivity|lia]).
+      eapply okr_bind; [apply (raw_unregister_ok 1 (ev_u2 s j) 16 I2 R16)|].
+      intros s3 (A & B & C & D & E). cbn [okr]. destruct C as [E1 E2 E3 E4 E5 E6 E7].
+      apply (ev_unreg_fin s s3 j I J RT A); try congruence. Show.
+      * eapply Fr_trans; eassumption.
+      * rewrite D, upd_same, E5, E3, U2, C2, U. split; [discriminate|intros [_ Q]; lia].
+      * rewrite E6, E5, U2, U. change (active_ref (ev_u2 s j)) with (active_ref s).
+        split; [intros Q; destruct (proj1 V6 Q); discriminate|intros [Q _]; discriminate].
+      * intros Q. rewrite E6. change (active_ref (ev_u2 s j)) with (active_ref s). apply V7.
+        unfold is_epoll in *. rewrite E7 in Q. exact Q.
+    + assert (AR : active_ref s = 1) by (apply V6; split; [reflexivity|lia]).
+      assert (EPL : is_epoll s = true).
+      { destruct (is_epoll s) eqn:Q; [reflexivity|]. rewrite (V7 eq_refl) in AR. discriminate. }
+      eapply okr_bind; [apply (event_rx_off_ok 1 (ev_u2 s j) I2 EPL AR)|].
+      intros s3 (A & B & C & D & E1 & E2 & E3 & E4 & E5 & E6 & E7). cbn [okr].
+      apply (ev_unreg_fin s s3 j I J RT A); try congruence.
+      * eapply Fr_trans; eassumption.
+      * rewrite E7, E5, U2, U. change (rw_reg (ev_u2 s j) 16) with (rw_reg s 16).
+        split; [intros Q; destruct (proj1 V5 Q); discriminate|intros [Q _]; discriminate].
+      * rewrite C, E3, C2. split; [discriminate|intros [_ Q]; lia].
+  - cbn [bind okr].
+    apply (ev_unreg_fin s (ev_u2 s j) j I J RT I2 F2); try reflexivity.
+    + change (rw_reg (ev_u2 s j) 16) with (rw_reg s 16). rewrite U2, C2, V5. intuition lia.
+    + change (active_ref (ev_u2 s j)) with (active_ref s). rewrite U2, C2, V6. intuition lia.
+    + exact V7.
+Qed.
+
+(* ---------- do_action for the event-register and raw-event actions ---------- *)
+Lemma do_action_ok_B : forall s a, InvW s -> wf_action a ->
+  (match a with AEvReg _ | AEvUnreg _ | ARwReg _ | ARwUnreg _ | ARwPost _ => True | _ => False end) ->
+  okr (StepW s) (do_action s a).
+Proof.
+  intros s a I W G.
+  assert (SR : okr (StepW s) (R s)) by (cbn [okr]; split; [assumption|apply Fr_refl]).
+  assert (IE : InvW (emit s (TAct a))) by (apply InvW_emit; [assumption|discriminate..]).
+  assert (LIFT : forall r, okr (StepW (emit s (TAct a))) r -> okr (StepW s) r).
+  { intros r H. eapply okr_weaken; [exact H|]. intros s' [A B]. split; [assumption|].
+    eapply Fr_trans; [apply Fr_emit|exact B]. }
+  destruct a; try contradiction; cbn [wf_action] in W; unfold ok_idx in W; cbn [do_action].
+  - (* AEvReg *)
+    destruct (ev_reg s j) eqn:E; [exact SR|]. apply LIFT.
+    pose proof (event_register_ok (emit s (TAct (AEvReg j))) j IE W E) as H.
+    destruct (event_register (emit s (TAct (AEvReg j))) j) as [r failed]. cbn [fst] in H.
+    eapply okr_bind; [exact H|]. intros s' S'. cbn [okr]. apply StepW_emit; [assumption|discriminate..].
+  - (* AEvUnreg *)
+    destruct (ev_reg s j) eqn:E; [|exact SR]. apply LIFT. apply event_unregister_ok; assumption.
+  - (* ARwReg *)
+    destruct (rw_reg s j) eqn:E; [exact SR|]. apply LIFT.
+    apply (act_rw_reg (emit s (TAct (ARwReg j))) j IE W E).
+  - (* ARwUnreg *)
+    destruct (rw_reg s j) eqn:E; [|exact SR]. apply LIFT. apply act_rw_unreg; assumption.
+  - (* ARwPost *)
+    destruct (rw_reg s j) eqn:E; [|exact SR]. apply LIFT. cbn [okr]. apply act_rw_post. assumption.
+Qed.
